@@ -239,6 +239,7 @@ def run_impl(prop, cases, tag):
 HEADER = """From Coq Require Import QArith List Bool Arith ZArith.
 From NurbsV Require Import Base.Res Base.QList Check.Common.
 Require Import {module}.
+{imports}
 Import ListNotations.
 Open Scope Q_scope.
 Definition cases : list {ctype} := [
@@ -277,27 +278,37 @@ def run_shard(args):
     return path, None, "unreachable"
 
 
-def run_coq(prop, mod, cases, outs, rundir, tag, family=None):
+def run_coq(prop, mod, cases, outs, rundir, tag):
     """Returns (corr_bad_indices, prop_bad_indices, shard_errors)."""
-    fam = family or mod
-    shard = getattr(fam, "SHARD", 250)
+    if hasattr(mod, "families"):
+        fams = mod.families()
+        groups = collections.OrderedDict()
+        for i, c in enumerate(cases):
+            groups.setdefault(mod.family_of(c), []).append(i)
+        groups = [(fams[name], idx, name) for name, idx in groups.items()]
+    else:
+        groups = [(mod, list(range(len(cases))), "m")]
     jobs = []
-    for si, start in enumerate(range(0, len(cases), shard)):
-        chunk = list(zip(cases[start:start + shard], outs[start:start + shard]))
-        body = ";\n".join(fam.emit(c, o) for c, o in chunk)
-        path = rundir / f"{tag}_{si}.v"
-        path.write_text(HEADER.format(module=fam.COQ_MODULE, ctype=f"{fam.COQ_MODULE.split('.')[-1]}.{fam.CASE_TYPE}",
-                                      fn=f"{fam.COQ_MODULE.split('.')[-1]}.{fam.CHECK_FN}", body=body))
-        jobs.append((path, len(chunk), start))
+    for fam, idx, fname in groups:
+        shard = getattr(fam, "SHARD", 250)
+        short = fam.COQ_MODULE.split(".")[-1]
+        for si, start in enumerate(range(0, len(idx), shard)):
+            sub = idx[start:start + shard]
+            body = ";\n".join(mod.emit(cases[i], outs[i]) for i in sub)
+            path = rundir / f"{tag}_{fname}_{si}.v"
+            path.write_text(HEADER.format(module=fam.COQ_MODULE, ctype=f"{short}.{fam.CASE_TYPE}",
+                                          fn=f"{short}.{fam.CHECK_FN}", body=body,
+                                          imports=getattr(mod, "EXTRA_IMPORTS", "")))
+            jobs.append((path, len(sub), sub))
     corr_bad, prop_bad, errors = [], [], []
     with cf.ThreadPoolExecutor(max_workers=16) as ex:
-        for (path, res, err), (_, _, start) in zip(ex.map(run_shard, [(p, n) for p, n, _ in jobs]), jobs):
+        for (path, res, err), (_, _, sub) in zip(ex.map(run_shard, [(p, n) for p, n, _ in jobs]), jobs):
             if err is not None:
                 errors.append(f"{path.name}: {err}")
                 continue
-            corr_bad += [start + i for i in res[0]]
-            prop_bad += [start + i for i in res[1]]
-    return corr_bad, prop_bad, errors
+            corr_bad += [sub[i] for i in res[0]]
+            prop_bad += [sub[i] for i in res[1]]
+    return sorted(corr_bad), sorted(prop_bad), errors
 
 
 # --------------------------------------------------------------------------- findings / replay
@@ -504,7 +515,7 @@ def run(prop, mod, tier, seed, replay, evidence_path, t0):
                     so, sc, _ = evaluate(prop, mod, [small], "final")
                     if not sc:
                         small, so = cases[i], [outs[i]]
-                    payload["correspondence"] = f"{mod.COQ_MODULE}.{mod.CHECK_FN}: model and implementation disagree"
+                    payload["correspondence"] = f"{mod.COQ_MODULE}: model and implementation disagree"
                     payload["case"] = small
                     payload["implementation_output"] = so[0]
                     payload["disagreeing_cases"] = len(corr_bad)
